@@ -29,8 +29,11 @@ def parse_val(t):
 # A second evaluator of the query language, written from its meaning, independent of the Lean model.
 # `sw` = set of deviations of the code that are switched ON (empty = intended behaviour).
 
+# deviations of the code as it is
 SWITCHES = ["cursor-drops-absent-keys", "order-ignores-default", "bool-default-as-number", "null-param-never-matches",
-            "explicit-null-hides-default", "skip-without-first-fails", "same-key-shadows-parent", "minmax-compare-text"]
+            "explicit-null-hides-default", "same-key-shadows-parent", "ref-filter-needs-selection"]
+# fixed in /repo (a7dcc50, 4f128e8): only used to name a regression when a fix is reverted
+FIXED_SWITCHES = ["skip-without-first-fails", "minmax-compare-text"]
 
 
 def num(v):
@@ -110,6 +113,24 @@ def filter_holds(w, sw, ent, r, f):
     return compare(f["op"], x, v)
 
 
+def holds(w, sw, my_key, n, r, f, depth=0):
+    """one filter of node n on row r: scalar, or `= null` / `!= null` on a reference field"""
+    if not f.get("ref"): return filter_holds(w, sw, w.nodes[n]["ent"], r, f)
+    node = w.nodes[n]
+    fd = w.fdef(r["ent"], f["f"])
+    if fd is None: return False
+    if "ref-filter-needs-selection" in sw:
+        present = False
+        for s in node["sels"]:
+            if s[0] == "sub" and s[1] == f["name"] and s[2] == f["f"]:
+                sub = eval_rows(w, sw, s[1], s[3], candidates(w, sw, my_key, s[1], r, s[2], w.nodes[s[3]]["ent"]), fd["kind"] == "A", depth + 1)
+                present = present or bool(sub)
+    else:
+        ids = r["refs"].get(f["f"], [])
+        present = any(t["ent"] == fd["to"] and t["id"] in ids for t in w.rows)
+    return (not present) if f["op"] == "eq" else (present if f["op"] == "ne" else False)
+
+
 def tuple_lt(orders, a, b):
     for o, x, y in zip(orders, a, b):
         if (vlt(y, x) if o["desc"] else vlt(x, y)): return True
@@ -149,7 +170,7 @@ def eval_rows(w, sw, my_key, n, cands, limited, depth=0):
             if key in node["optional"] or fd["nullable"]: continue
             sub = eval_rows(w, sw, key, child, candidates(w, sw, my_key, key, r, fld, w.nodes[child]["ent"]), fd["kind"] == "A", depth + 1)
             if not sub: good = False; break
-        if good and all(filter_holds(w, sw, ent, r, f) for f in node["filters"]): ok.append(r)
+        if good and all(holds(w, sw, my_key, n, r, f, depth) for f in node["filters"]): ok.append(r)
     orders = node["orders"]
 
     def keys(r):
@@ -246,7 +267,10 @@ def eval_groups(w, sw, my_key):
     """count()/min()/max() grouped by the scalar selections of the root"""
     node = w.nodes[0]
     ent = node["ent"]
-    ok = [r for r in w.rows if r["ent"] == ent and all(filter_holds(w, sw, ent, r, f) for f in node["filters"])]
+    aggs = [s[1] for s in node["sels"] if s[0] == "agg"]
+    having = [f for f in node["filters"] if f["sel"] and f["name"] in aggs]
+    wheres = [f for f in node["filters"] if not (f["sel"] and f["name"] in aggs)]
+    ok = [r for r in w.rows if r["ent"] == ent and all(filter_holds(w, sw, ent, r, f) for f in wheres)]
     gfields = [s[2] for s in node["sels"] if s[0] == "scalar"]
     groups = []
     for r in ok:
@@ -277,6 +301,7 @@ def eval_groups(w, sw, my_key):
                         if (lt(v, best) if fn == "min" else lt(best, v)): best = v
                     row.append((k, best))
         rows.append(row)
+    rows = [row for row in rows if all(compare(f["op"], dict(row).get(f["name"], NULL), f["v"]) for f in having)]
     orders = node["orders"]
 
     def keys(row):
@@ -333,7 +358,7 @@ def apply_op(w, k, a):
         elif k == "qg": w.nodes[int(a["n"])]["sels"].append(("agg", a["key"], a["fn"], int(a["f"])))
         elif k == "qf":
             w.nodes[int(a["n"])]["filters"].append({"name": a["name"], "sel": a["sel"] == "1", "f": int(a["f"]), "op": a["op"],
-                                                   "v": parse_val(a["v"]), "var": a.get("var") == "1"})
+                                                   "v": parse_val(a["v"]), "var": a.get("var") == "1", "ref": a.get("ref") == "1"})
         elif k == "qo":
             w.nodes[int(a["n"])]["orders"].append({"name": a["name"], "sel": a["sel"] == "1", "f": int(a["f"]), "desc": a["dir"] == "desc"})
         elif k == "ql":
@@ -355,19 +380,22 @@ SIGNATURE_OF = {
     "skip-without-first-fails": "skip-without-first-refused",
     "same-key-shadows-parent": "nested-same-key-shadowing",
     "minmax-compare-text": "aggregate-minmax-compare-text",
+    "ref-filter-needs-selection": "reference-filter-needs-selection",
 }
 
 
 def explain(w, impl):
     """which deviation(s) of the code explain an implementation result that differs from the intended one"""
-    for s in SWITCHES:
+    allsw = SWITCHES + FIXED_SWITCHES
+    for s in allsw:
         if run_query(w, {s}) == impl: return [SIGNATURE_OF[s]]
-    for i, s in enumerate(SWITCHES):
-        for t in SWITCHES[i + 1:]:
+    for i, s in enumerate(allsw):
+        for t in allsw[i + 1:]:
             if run_query(w, {s, t}) == impl: return [SIGNATURE_OF[s], SIGNATURE_OF[t]]
-    if run_query(w, set(SWITCHES)) == impl:
-        # several at once: name those whose removal changes the result
-        return [SIGNATURE_OF[s] for s in SWITCHES if run_query(w, set(SWITCHES) - {s}) != impl] or ["query-result-mismatch"]
+    for base in (set(SWITCHES), set(allsw)):
+        if run_query(w, base) == impl:
+            # several at once: name those whose removal changes the result
+            return [SIGNATURE_OF[s] for s in sorted(base) if run_query(w, base - {s}) != impl] or ["query-result-mismatch"]
     return None
 
 
